@@ -47,7 +47,7 @@ func readWithTimeout(rd io.Reader, buf []byte) (n int, err error, hung bool) {
 	select {
 	case x := <-ch:
 		return x.n, x.err, false
-	case <-time.After(2 * time.Second):
+	case <-time.After(10 * time.Second):
 		return 0, nil, true
 	}
 }
@@ -111,7 +111,7 @@ func runXR(r *vhlib.Run, sink, plain []byte, ops []xrOp, oracle bool) (obs strin
 						emptyReadHung = true
 					}
 					if oracle {
-						r.Violate("read-hangs", fmt.Sprintf("Read(len %d) did not return within 2s", len(buf)), replay)
+						r.Violate("read-hangs", fmt.Sprintf("Read(len %d) did not return within 10s", len(buf)), replay)
 					}
 					return "hang", ""
 				}
